@@ -7,6 +7,7 @@ import PM.Transform
 import Proofs.StepToks
 import Proofs.Undo
 import Proofs.UndoReplace
+import Proofs.UndoForward
 namespace PM.C04
 open PM
 
@@ -168,18 +169,27 @@ theorem replace_undo_partial (S : Schema) (doc doc' doc'' : Node) (f t : Nat) (s
       exact splice_undo (ftoks K) sl.toks f t hft (by rw [ftoks_length]; exact ht)
     rw [ftoks_inj K'' K hn'' hn this]
 
-/- The full statement (the inverse of every applicable replace step applies):
+/- The full, unguarded statement (the inverse of every applicable replace step applies):
 
-     replace_undo : (hd : Valid S doc) (hn : fnorm doc.kids) (hsn : fnorm sl.content)
+     replace_undo_unguarded : (hd : S.checkNode doc) (hn : fnorm doc.kids) (hsn : fnorm sl.content)
          (h1 : S.apply (.replace f t sl b) doc = .ok doc') (hi : S.invert (.replace f t sl b) doc = .ok inv)
          (ha : pair-alignment of `f` and `f + sl.size` in `doc'`) : S.apply inv doc' = .ok doc
 
-   is proved below for *flat* replaces (`replace_undo_closed`): the step's slice is closed and the range it
-   replaces lies in one parent with both ends at child boundaries or inside text (the old slice is closed).
-   Missing for open slices / ranges across node boundaries: a structural description of what `threeWay`
-   builds along the two spines (the inverse re-joins nodes of `doc'` that the forward step rebuilt; its
-   `check_join` pairs are symmetric images of pairs the forward step checked, its `close` arguments are
-   contents of nodes of `doc`).  `replace_undo_partial` covers those cases conditionally.  -/
+   is FALSE, in the model and in the code (and upstream): `compatible_content` is symmetric but not
+   transitive.  When the slice is a single node `C` open on both sides, the forward step checks
+   `C ~ A` and `B ~ C` for `from`'s ancestor `A` and `to`'s ancestor `B` and merges the two sides
+   through `C`; the inverse has to re-split the merged `A` node and checks `A ~ B`, which the forward
+   step never did.  `replace_undo_needs_guard` below is the checked counterexample.
+
+   What holds is `replace_undo`: the same statement with the decidable guard
+   `sidesCompatible S doc f t sl` — at the depths `d` with `e < d ≤ e + n`
+   (`e = depth(f) − openStart`, `n = singleDepth` = number of nested levels at which the slice is a single
+   node open on both sides) the ancestors of `f` and `t` in `doc` have compatible types.  The guard is
+   vacuous for slices closed on one side (`replace_undo_closed_side`) and it is exactly what the proof
+   needs: every other `check_join` of the inverse is a pair of equal types or the mirror image of a pair
+   the forward step checked, and every `close` re-validates the content of a node of `doc`.
+   Proof: `Proofs/UndoRel.lean` (relations), `Proofs/UndoForward.lean` (what the forward step leaves),
+   `Proofs/UndoInverse.lean` (the inverse succeeds).  -/
 
 /-- **the inverse of a flat replace step applies and restores the document exactly.**
     `doc` valid (`Node.check`) and in normal form, the step's slice closed and in normal form, the replaced
@@ -258,6 +268,176 @@ example : tinyS.apply (.replace 2 3 ⟨[.text [98] []], 0, 0⟩ false) tinyDoc' 
     subst h; exact ⟨rfl, rfl⟩
   · simp [tinyDoc', Node.kids, tinySl, alignedAt, splitOk, isHigh, isLow]
 end Example
+
+/-- **the inverse of a successfully applied replace step applies and restores the document exactly**
+    (general case: open slices, ranges across node boundaries).
+    `doc` valid (`Node.check`) and in normal form, the slice in normal form.
+    `hj`: the guard `sidesCompatible` (see the comment above; without it the statement is false,
+    `replace_undo_needs_guard`).
+    `ha`: the two ends of the inserted content do not fall between the halves of a surrogate pair of
+    `doc'` (Python strings cannot). -/
+theorem replace_undo (S : Schema) (doc doc' : Node) (f t : Nat) (sl : Slice) (b : Bool) (inv : Step)
+    (hd : S.checkNode doc = true) (hn : fnorm doc.kids = true) (hsn : fnorm sl.content = true)
+    (h1 : S.apply (.replace f t sl b) doc = .ok doc')
+    (hi : S.invert (.replace f t sl b) doc = .ok inv)
+    (hj : sidesCompatible S doc f t sl = true)
+    (ha : alignedAt doc'.kids f = true ∧ alignedAt doc'.kids (f + sl.size.toNat) = true) :
+    S.apply inv doc' = .ok doc := by
+  obtain ⟨ty, a, m, K, K', rfl, rfl, hr1⟩ :=
+    fromReplace_elem S doc doc' f t sl (apply_replace_fromReplace S doc doc' f t sl b h1)
+  simp only [Node.kids] at hn ha
+  simp only [sidesCompatible, Node.kids] at hj
+  have hd' := hd
+  simp only [checkNode_elem, Bool.and_eq_true] at hd'
+  have hi' := hi
+  simp only [Schema.invert] at hi'
+  cases hsl : (Node.elem ty a m K).slice f t with
+  | error e => simp [hsl] at hi'
+  | ok old =>
+    simp only [hsl, Except.ok.injEq] at hi'
+    subst hi'
+    have hsl' : sliceKids K f t = .ok old := hsl
+    obtain ⟨hft, ht, hwf⟩ := replaceKids_guards S ty K f t sl K' hr1
+    have hn' := replaceKids_norm S ty K f t sl K' hn hsn hr1
+    have htk := replaceKids_toks S ty K f t sl K' hr1
+    have hsz := replaceKids_size S ty K f t sl K' hr1
+    have hs0 : 0 ≤ sl.size := by
+      have := spine_sum_le sl.content
+      simp only [Slice.wf, Bool.and_eq_true, decide_eq_true_eq] at hwf
+      simp only [Slice.size]; omega
+    have hpos : fsize K' - (fsize K - t) = f + sl.size.toNat := by omega
+    -- left of `f` nothing changed
+    have hL : LeftRel K' K f := by
+      refine leftRel_of_toks K' K f hn' hn (by omega) (by omega) ha.1 ?_
+      rw [htk, List.append_assoc, take_app_le _ _ _ (by simp [ftoks_length]; omega),
+        List.take_of_length_le (by simp; omega)]
+    -- right of the inserted content
+    have hR : RightRel S K' (f + sl.size.toNat) K t := by
+      have := replaceKids_rrel S ty K K' f t sl hn hsn hr1 hj (by rw [hpos]; exact ha.2)
+      rwa [hpos] at this
+    obtain ⟨X, hX⟩ := replaceKids_undoG S ty K K' f t (f + sl.size.toNat) old hd'.1.1 hd'.2 hn hn'
+      hft ht (by omega) hsl' hL hR
+    have h2 : S.apply (.replace f (f + sl.size.toNat) old false) (Node.elem ty a m K')
+        = .ok (Node.elem ty a m X) := by
+      simp [Schema.apply, Schema.fromReplace, Schema.replace, hX, Except.map]
+    have := replace_undo_partial S _ _ _ f t sl b _ (by simpa [Node.kids] using hn) hsn h1 hi h2
+    rw [this] at h2
+    exact h2
+
+/-- no guard is needed when the slice is closed on at least one side (in particular for deletions,
+    `sl = Slice.empty`, across any node boundaries, and for every closed slice over any range) -/
+theorem replace_undo_closed_side (S : Schema) (doc doc' : Node) (f t : Nat) (sl : Slice) (b : Bool)
+    (inv : Step) (hd : S.checkNode doc = true) (hn : fnorm doc.kids = true)
+    (hsn : fnorm sl.content = true) (hc : sl.openStart = 0 ∨ sl.openEnd = 0)
+    (h1 : S.apply (.replace f t sl b) doc = .ok doc')
+    (hi : S.invert (.replace f t sl b) doc = .ok inv)
+    (ha : alignedAt doc'.kids f = true ∧ alignedAt doc'.kids (f + sl.size.toNat) = true) :
+    S.apply inv doc' = .ok doc :=
+  replace_undo S doc doc' f t sl b inv hd hn hsn h1 hi (sidesCompatible_of_closed S doc f t sl hc) ha
+
+/-! Non-vacuity of `replace_undo` with a slice open on both sides: in `doc(p("ab"), p("c"))` the step
+    "replace 3 … 5 (`</p><p>`) by the slice `p()` open on both sides" joins the paragraphs through the
+    slice node, `doc(p("abc"))`; its inverse re-inserts `⟨[p(), p()], 1, 1⟩` at 3 and splits again. -/
+section ExampleOpen
+private def joinSl : Slice := ⟨[.elem 1 [] [] []], 1, 1⟩
+private def joinDoc' : Node := .elem 0 [] [] [.elem 1 [] [] [.text [97, 98, 99] []]]
+private def joinInv : Step := .replace 3 3 ⟨[.elem 1 [] [] [], .elem 1 [] [] []], 1, 1⟩ false
+
+private theorem join_fwd : tinyS.apply (.replace 3 5 joinSl false) tinyDoc = .ok joinDoc' := by
+  have hc : tinyS.compatibleContent 1 1 = true := by decide
+  have hv : tinyS.validContent 1 [Node.text [97, 98, 99] []] = true := by decide
+  have hv0 : tinyS.validContent 0 [Node.elem 1 [] [] [Node.text [97, 98, 99] []]] = true := by decide
+  simp [Schema.apply, Schema.fromReplace, Schema.replace, joinSl, tinyDoc, joinDoc', replaceKids,
+    inRange, depthAt, Slice.wf, spineL, spineR, outer, atLevel, threeWay, splitRight, rightJoin, middle,
+    flatTail, Schema.close, fromArray, addNodes, addNode, hc, hv, hv0, Except.map, RSplit.rest]
+
+private theorem join_inv : tinyS.invert (.replace 3 5 joinSl false) tinyDoc = .ok joinInv := by
+  simp [Schema.invert, Node.slice, Node.kids, tinyDoc, joinSl, joinInv, sliceKids, inRange, sliceScan,
+    sliceHere, fcut, fcutLoop, Node.cut, depthAt, Slice.size]
+
+example : tinyS.apply joinInv joinDoc' = .ok tinyDoc := by
+  refine replace_undo tinyS tinyDoc joinDoc' 3 5 joinSl false _ ?_ ?_ ?_ join_fwd join_inv ?_ ?_
+  · simp [tinyDoc, Schema.checkNode, Schema.checkKids]; decide
+  · simp [tinyDoc, Node.kids, fnorm, fnormKids, Node.norm, chainOk, adjOk]
+  · simp [joinSl, fnorm, fnormKids, Node.norm, chainOk]
+  · simp [sidesCompatible, bridgeCompat, ancCompat, singleDepth, joinSl, tinyDoc, Node.kids, depthAt,
+      splitRight]
+    decide
+  · simp [joinDoc', Node.kids, joinSl, Slice.size, alignedAt, splitOk, isHigh, isLow]
+end ExampleOpen
+
+/-! The guard of `replace_undo` cannot be dropped: a schema in which `compatible_content` is not
+    transitive.  `doc "(A|B|C)*"`, `A "p q*"`, `B "q+"`, `C "(p|q)*"`, `p`, `q` leaves:
+    `A ~ C` (both can start with `p`), `C ~ B` (`q`), but not `A ~ B`. -/
+section NeedsGuard
+private def nt (name : String) (leaf : Bool) (dfa : Array DfaState) : NodeType :=
+  { name := name, isText := false, isInline := false, isLeaf := leaf, isAtom := leaf,
+    inlineContent := false, isolating := false, defining := false, code := false,
+    dfa := dfa, markSet := some [], attrs := [] }
+
+private def brS : Schema :=
+  { nodes := #[
+      nt "doc" false #[⟨true, [(1, 0), (2, 0), (3, 0)]⟩],
+      nt "A" false #[⟨false, [(4, 1)]⟩, ⟨true, [(5, 1)]⟩],
+      nt "B" false #[⟨false, [(5, 1)]⟩, ⟨true, [(5, 1)]⟩],
+      nt "C" false #[⟨true, [(4, 0), (5, 0)]⟩],
+      nt "p" true #[⟨true, []⟩],
+      nt "q" true #[⟨true, []⟩],
+      { nt "text" true #[⟨true, []⟩] with isText := true, isInline := true }],
+    marks := #[], top := 0, textTy := 6 }
+
+/-- `doc(A(p, q), B(q, q))` -/
+private def brDoc : Node :=
+  .elem 0 [] [] [.elem 1 [] [] [.leaf 4 [] [], .leaf 5 [] []], .elem 2 [] [] [.leaf 5 [] [], .leaf 5 [] []]]
+/-- the slice `C()` open on both sides -/
+private def brSl : Slice := ⟨[.elem 3 [] [] []], 1, 1⟩
+/-- `doc(A(p, q, q))` -/
+private def brDoc' : Node := .elem 0 [] [] [.elem 1 [] [] [.leaf 4 [] [], .leaf 5 [] [], .leaf 5 [] []]]
+private def brInv : Step :=
+  .replace 3 3 ⟨[.elem 1 [] [] [], .elem 2 [] [] [.leaf 5 [] []]], 1, 1⟩ false
+
+private theorem br_fwd : brS.apply (.replace 3 6 brSl false) brDoc = .ok brDoc' := by
+  have hc1 : brS.compatibleContent 3 1 = true := by decide
+  have hc2 : brS.compatibleContent 2 3 = true := by decide
+  have hv : brS.validContent 1 [Node.leaf 4 [] [], Node.leaf 5 [] [], Node.leaf 5 [] []] = true := by decide
+  have hv0 : brS.validContent 0 [Node.elem 1 [] [] [Node.leaf 4 [] [], Node.leaf 5 [] [], Node.leaf 5 [] []]]
+      = true := by decide
+  simp [Schema.apply, Schema.fromReplace, Schema.replace, brSl, brDoc, brDoc', replaceKids, inRange,
+    depthAt, Slice.wf, spineL, spineR, outer, atLevel, threeWay, splitRight, rightJoin, middle, flatTail,
+    Schema.close, fromArray, addNodes, addNode, hc1, hc2, hv, hv0, Except.map, RSplit.rest]
+
+private theorem br_inv : brS.invert (.replace 3 6 brSl false) brDoc = .ok brInv := by
+  simp [Schema.invert, Node.slice, Node.kids, brDoc, brSl, brInv, sliceKids, inRange, sliceScan,
+    sliceHere, fcut, fcutLoop, Node.cut, depthAt, Slice.size, Except.map]
+
+private theorem br_undo_fails : brS.apply brInv brDoc' = .error .failed := by
+  have hc : brS.compatibleContent 1 2 = false := by decide
+  have hc1 : brS.compatibleContent 1 1 = true := by decide
+  have hv : brS.validContent 1 [Node.leaf 4 [] [], Node.leaf 5 [] []] = true := by decide
+  simp [Schema.apply, Schema.fromReplace, Schema.replace, brInv, brDoc', replaceKids, inRange,
+    depthAt, Slice.wf, spineL, spineR, outer, atLevel, threeWay, threeWay.rightJoinCheck, twoWay,
+    splitRight, rightJoin, Schema.close, fromArray, addNodes, addNode, hc, hc1, hv, Except.map]
+
+/-- **the guard `sidesCompatible` of `replace_undo` is necessary**: a valid normal-form document, a
+    normal-form slice, a replace step that applies, whose inverse is computed — and the inverse does
+    not apply (`failed`: "Cannot join A onto B"); every hypothesis of `replace_undo` except the guard
+    holds.  The same happens in the code (and upstream). -/
+theorem replace_undo_needs_guard :
+    ∃ (S : Schema) (doc doc' : Node) (f t : Nat) (sl : Slice) (inv : Step),
+      S.checkNode doc = true ∧ fnorm doc.kids = true ∧ fnorm sl.content = true ∧
+      S.apply (.replace f t sl false) doc = .ok doc' ∧
+      S.invert (.replace f t sl false) doc = .ok inv ∧
+      (alignedAt doc'.kids f = true ∧ alignedAt doc'.kids (f + sl.size.toNat) = true) ∧
+      sidesCompatible S doc f t sl = false ∧
+      S.apply inv doc' = .error .failed := by
+  refine ⟨brS, brDoc, brDoc', 3, 6, brSl, brInv, by decide, ?_, ?_, br_fwd, br_inv, ?_, ?_, br_undo_fails⟩
+  · simp [brDoc, Node.kids, fnorm, fnormKids, Node.norm, chainOk, adjOk]
+  · simp [brSl, fnorm, fnormKids, Node.norm, chainOk]
+  · simp [brDoc', Node.kids, brSl, Slice.size, alignedAt]
+  · simp [sidesCompatible, bridgeCompat, ancCompat, singleDepth, brSl, brDoc, Node.kids, depthAt,
+      splitRight]
+    decide
+end NeedsGuard
 
 /-- **exact undo of a replace-around step** (same proviso) -/
 theorem replaceAround_undo_partial (S : Schema) (doc doc' doc'' : Node) (f t gf gt : Nat) (sl : Slice)
